@@ -25,9 +25,11 @@ import (
 const probePath = "/zprobe.jet"
 const leavePath = "/zleave.jet"
 const swallowPath = "/zswallow.jet"
+const nilDataPath = "/znildata.jet"
 
 var rePtrMethod = regexp.MustCompile(`<ptrmethod:[a-z]*:([^>]*)>`)
 
+var reMaps = regexp.MustCompile(`<maps:([^>]*)>`)
 var reUnexp = regexp.MustCompile(`<unexp:([^>]*)>`)
 
 var reInner = regexp.MustCompile(`<inner:([^>]*)>`)
@@ -121,6 +123,8 @@ func RunC10(env *sim.Env) {
 	world.Files["/zsw_card.jet"] = `{{block zcard(title="")}}{{zin := title}}{{yield content}}{{undefinedName}}{{end}}`
 	world.Files["/zsw_inner.jet"] = `{{zq := "swallowed"}}{{yield zcard(title="t") content}}LEAKED-CONTENT{{end}}`
 	world.Files["/zsw_page.jet"] = `{{import "/zsw_card.jet"}}{{include "/zsw_inner.jet"}}`
+	// executed without data after executions with data: '.' is nothing, whoever used the Runtime before
+	world.Files[nilDataPath] = `<ctx:{{ isset(.Names) ? "somebody's" : "none" }}{{ isset(.) ? "!" : "" }}>`
 	world.Files[swallowPath] = []string{
 		`{{isset(exec("/zsw_page.jet").x) ? "set" : "unset"}}`,
 		`{{if isset(exec("/zsw_page.jet")[0])}}set{{else}}unset{{end}}<after>`,
@@ -202,6 +206,9 @@ func RunC10(env *sim.Env) {
 		}
 		if m := reInner.FindStringSubmatch(o.Out); m != nil && m[1] != "embedded|only" {
 			env.Violate("alone-run-equality", "residue:embedded-struct-fields-resolve-wrongly", "call %q renders %s: the fields of the embedded struct hold \"embedded\" and \"only\" - what they resolve to depends on which struct type the process resolved first\nhistory: %s", call.String(), sim.Q(m[0]), strings.Join(hist[max(0, len(hist)-4):], " ; "))
+		}
+		if m := reMaps.FindStringSubmatch(o.Out); m != nil && strings.Contains(m[1], "LEFTOVER") {
+			env.Violate("alone-run-equality", "residue:ranger-leftover", "call %q renders %s: a range over an empty map rendered elements - those an earlier range over another map, left through return, had not consumed\nhistory: %s", call.String(), sim.Q(m[0]), strings.Join(hist[max(0, len(hist)-4):], " ; "))
 		}
 		if m := reUnexp.FindStringSubmatch(o.Out); m != nil && m[1] != "FAILED|FAILED|FAILED" {
 			env.Violate("alone-run-equality", "residue:unexported-field-rendered", "call %q renders %s: an unexported field is an error every time it is asked for; here the answer depends on an earlier lookup of the same name\nhistory: %s", call.String(), sim.Q(m[0]), strings.Join(hist[max(0, len(hist)-4):], " ; "))
@@ -344,6 +351,12 @@ func RunC10(env *sim.Env) {
 		env.Stat("counters:fault_points", int64(len(fps)))
 		// fault-free first (residue after successful executions)
 		exec(Call{Tmpl: m, Data: d, NilVars: nilVars, EmptyVars: emptyVars})
+		{
+			nd := d
+			nd.Nil = true
+			exec(Call{Tmpl: nilDataPath, Data: nd, NilVars: nilVars, EmptyVars: emptyVars})
+			env.Stat("probe:execution_without_data_after_one_with_data", 1)
+		}
 		doFlood()
 		if fi == 0 {
 			for _, follow := range targets {
